@@ -308,10 +308,12 @@ class E1:
             if cb_ is not None and bits is not None and cb_ < bits:
                 return "ok", "constant shift < %d" % bits, desc, False
             if bits is not None:
+                # a dominating guard on the amount itself (`if shift >= 64 { return 0 }`); the assert's own condition is the
+                # outgoing edge of this block and is not among the relations that dominate it
                 for r in rels:
-                    if r[0] == "lt" and strip(r[1]) == strip(bb) and (self.const_of(r[2]) or 1 << 30) <= bits:
-                        # the assert's own condition is not a guard: it must dominate from another edge
-                        pass
+                    k = self.const_of(r[2]) if len(r) > 2 else None
+                    if k is not None and strip(canon(r[1])) == strip(canon(bb)) and ((r[0] == "lt" and k <= bits) or (r[0] == "le" and k < bits)):
+                        return "ok", "guard %s %s %d (< %d bits)" % (short(bb), "<" if r[0] == "lt" else "<=", k, bits), desc, True
         key = "E1|%s|%s|%s" % (b.id, op, desc)
         if key in ALLOW:
             return "allow", ALLOW[key], desc, True
